@@ -226,6 +226,16 @@ C04(cfg, obs) ==
                /\ \E a \in Calls(obs) : obs[a].fr \in SinkNames(cfg) /\ obs[a].t = "E"
                      /\ InsideP(nst.par, b, a) /\ ~(obs[b].t = "E" /\ obs[b].v = obs[a].v)}})
   \cup
+  \* an interval upstream must not be left ticking: once every sink is over, the first expiry of each
+  \* of its timers ends the task (scenarios whose graph contains an interval node under operators)
+  (IF ~\E n \in 1..Len(cfg.nodes) : cfg.nodes[n].kind = "interval" THEN {} ELSE
+   {W("C04", "interval_left_ticking", f, obs[f].to, cfg, "") :
+      f \in {f \in Tops(obs) : obs[f].t = "fire" /\ ~Panicked(obs)
+               /\ (\A k \in 1..Len(cfg.sinks) :
+                      (\E a \in 1..(f - 1) : obs[a].k = "top" /\ obs[a].to = KNm(k) /\ obs[a].t = "attach")
+                        /\ OverBefore(obs, KNm(k), f))
+               /\ ~\E e \in f..StepEnd(obs, f) : obs[e].k = "taskdone" /\ obs[e].to = obs[f].to}})
+  \cup
   \* for_each as a sink: one Pull per Handshake/Data received, nested in it; never a Terminate/Error
   (IF ~\E k \in 1..Len(cfg.sinks) : cfg.sinks[k] = "foreach_raw" THEN {} ELSE
    UNION {
